@@ -197,9 +197,13 @@ class Gfa(Lines,GraphOperations,RGFA):
     """
     if self._progress:
       linecount = 0
-      with open(filename) as f:
-        for line in f:
-          linecount += 1
+      try:
+        with open(filename) as f:
+          for line in f:
+            linecount += 1
+      except UnicodeDecodeError as err:
+        raise gfapy.FormatError(
+          "File {} cannot be decoded as text: {}".format(filename, err))
       # TODO: better implementation of linecount
       self._progress_log_init("read_file", "lines", linecount,
                               "Parsing file {}".format(filename)+
